@@ -71,6 +71,8 @@ def main():
             # each thread hands the NetworkClient exactly the message that f(...) would build: a function call or a program text.
             if text.startswith("f(:slow,,"):
                 return ipc.KGRemoteFnCall(KGSym("slow"), [int(text[len("f(:slow,,"):-1])])
+            if text.startswith("f(:nosuch,,"):
+                return ipc.KGRemoteFnCall(KGSym("nosuch"), [1])
             assert text.startswith('f("') and text.endswith('")')
             return text[3:-2]
 
@@ -95,6 +97,15 @@ def main():
         closer = {}
         if kind == "server-eval-fails":
             th = threading.Thread(target=caller, args=("bad", 'f("nosuchfn(1;2")', None), daemon=True)
+            th.start()
+            threads.append(th)
+            wants["bad"] = "must-raise"
+        elif kind == "server-missing-symbol":
+            # a call of a function the server does not have: the server must answer with an error (or drop the connection), also when
+            # nothing else is going on there
+            if pending == 0 or rng.random() < 0.5:
+                time.sleep(0.4)         # let the server fall idle first
+            th = threading.Thread(target=caller, args=("bad", 'f(:nosuch,,1)', None), daemon=True)
             th.start()
             threads.append(th)
             wants["bad"] = "must-raise"
@@ -142,6 +153,9 @@ def main():
                 gone = nc._run_exit_event.is_set() or not nc.running
                 # after .srv(0) returned there is no server task left that could answer: logically hung as well
                 if kind == "srv0-while-pending":
+                    gone = True
+                # the server finished the (failing) lookup long ago: 40 s without an answer or a dropped connection is a hang
+                if kind == "server-missing-symbol" and name == "bad":
                     gone = True
                 if gone:
                     import traceback
